@@ -69,6 +69,7 @@ def demo_plan(d, meta):
 
 
 def confirm(d):
+    d = os.path.abspath(d)
     meta = load_meta(d)
     src, dest, rundir, cmd = demo_plan(d, meta)
     over = os.path.join(d, "confirm_plan.json")
@@ -134,6 +135,7 @@ def confirm(d):
 
 
 def check(d, pids):
+    d = os.path.abspath(d)
     meta = load_meta(d)
     pids = pids or [meta.get("property")]
     wt = mkwt("chk_" + os.path.basename(os.path.dirname(d.rstrip("/"))) + "_" + os.path.basename(d.rstrip("/")))
